@@ -359,7 +359,9 @@ impl<'a> Cx<'a> {
                     [At::Lt(n), At::EvenLen] => if off % 2 == 0 { format!("odd-ge{}", n - off) } else { format!("even-ge{}", n - off) },
                     _ => "?".to_string(),
                 };
-                if rule != "?" || parsed.iter().any(|a| !matches!(a, At::Other)) {
+                // a guard on the argument count that is not one of the recognised forms: pattern not recognised
+                let mentions_len = (s + 1..lb).any(|j| is_id(&t[j], "len") || is_id(&t[j], "is_empty"));
+                if rule != "?" || mentions_len {
                     return (rule, Some(caps[0].clone()), Some(lit_idx));
                 }
             }
@@ -473,12 +475,20 @@ impl<'a> Cx<'a> {
                 // index tokens up to `]`
                 let lb = e - 1;
                 if let Some(rb) = close_of(t, lb) {
-                    if rb + 1 < t.len() && is_p(&t[rb + 1], ")") {
-                        v.push((i, rb + 2, k, t[lb + 1..rb].to_vec()));
-                        i = rb + 2;
+                    // `)` — or `,)` when the call is spread over lines
+                    let close = if rb + 1 < t.len() && is_p(&t[rb + 1], ")") { Some(rb + 2) }
+                        else if rb + 2 < t.len() && is_p(&t[rb + 1], ",") && is_p(&t[rb + 2], ")") { Some(rb + 3) }
+                        else { None };
+                    if let Some(c) = close {
+                        v.push((i, c, k, t[lb + 1..rb].to_vec()));
+                        i = c;
                         continue;
                     }
                 }
+                // the call starts like an extraction and does not end like one: pattern not recognised
+                v.push((i, e, "?".to_string(), vec![Tk::P("?".into())]));
+                i = e;
+                continue;
             }
             i += 1;
         }
@@ -610,6 +620,7 @@ fn describe(cx: &Cx, name: &str, body: (usize, usize)) -> Row {
     let mut slots_ok = true;
     for (xs, xe, k, idx) in cx.extractions(s, e) {
         if in_loop(xs) { continue; }
+        if k == "?" { slots_ok = false; continue; }
         if idx.len() != 1 { continue; }
         let n = match &idx[0] { Tk::Num(n) => match num(n) { Some(n) => n, None => continue }, _ => continue };
         if n < cx.first { slots_ok = false; continue; }
